@@ -185,3 +185,55 @@ Proof. exact UndecidedProofs.undecided_example. Qed.
 Print Assumptions C05_undecided_value.
 Print Assumptions C05_undecided_noupdate_identity.
 Print Assumptions C05_undecided_example.
+
+(* `x in snapshot(<value>)` where the previous value is no list display (Model/CollReplace.v mirrors that branch of CollectionValue._get_changes):
+   the categories mean what they mean for list displays *)
+From V Require Model.CollReplace Proofs.CollReplaceProofs.
+Theorem C05_coll_replace_fix_iff_missing :
+  forall (trim is_set : bool) (old tested : list Z),
+  (exists nv, CollReplace.coll_replace false trim is_set old tested = CollReplace.Repl true nv)
+  <-> (exists v, In v tested /\ CollReplace.mem v old = false).
+Proof. exact CollReplaceProofs.fix_iff_missing. Qed.
+Print Assumptions C05_coll_replace_fix_iff_missing.
+
+Theorem C05_coll_replace_trim_iff :
+  forall (trim is_set : bool) (old tested : list Z),
+  (exists nv, CollReplace.coll_replace false trim is_set old tested = CollReplace.Repl false nv)
+  <-> ((forall v, In v tested -> CollReplace.mem v old = true) /\ exists o, In o old /\ CollReplace.mem o tested = false).
+Proof. exact CollReplaceProofs.trim_iff. Qed.
+Print Assumptions C05_coll_replace_trim_iff.
+
+(* a fix that is computed while trim is not approved loses no member of the previous value (F-77), and appends exactly the missing tested values *)
+Theorem C05_coll_replace_fix_without_trim_keeps_old :
+  forall (is_set : bool) (old tested nv : list Z),
+  CollReplace.coll_replace false false is_set old tested = CollReplace.Repl true nv -> forall o, In o old -> In o nv.
+Proof. exact CollReplaceProofs.fix_without_trim_keeps_old. Qed.
+Print Assumptions C05_coll_replace_fix_without_trim_keeps_old.
+
+Theorem C05_coll_replace_fix_without_trim_shape :
+  forall (is_set : bool) (old tested nv : list Z),
+  CollReplace.coll_replace false false is_set old tested = CollReplace.Repl true nv ->
+  nv = CollReplace.ordered is_set old ++ CollReplace.missing old tested.
+Proof. exact CollReplaceProofs.fix_without_trim_shape. Qed.
+Print Assumptions C05_coll_replace_fix_without_trim_shape.
+
+Theorem C05_coll_replace_trim_writes_tested :
+  forall (unm trim is_set : bool) (old tested : list Z) (f : bool) (nv : list Z),
+  CollReplace.coll_replace unm trim is_set old tested = CollReplace.Repl f nv -> (f = false \/ trim = true) -> nv = tested.
+Proof. exact CollReplaceProofs.trim_writes_tested. Qed.
+Print Assumptions C05_coll_replace_trim_writes_tested.
+
+Theorem C05_coll_replace_nothing_invented :
+  forall (unm trim is_set : bool) (old tested : list Z) (f : bool) (nv : list Z),
+  CollReplace.coll_replace unm trim is_set old tested = CollReplace.Repl f nv -> forall v, In v nv -> In v old \/ In v tested.
+Proof. exact CollReplaceProofs.new_value_from_old_or_tested. Qed.
+Print Assumptions C05_coll_replace_nothing_invented.
+
+Theorem C05_coll_replace_example :
+  CollReplace.coll_replace false false true [3; 1; 2]%Z [2; 5]%Z = CollReplace.Repl true [1; 2; 3; 5]%Z
+  /\ CollReplace.coll_replace false false true [2; 3; 1]%Z [2; 5]%Z = CollReplace.Repl true [1; 2; 3; 5]%Z
+  /\ CollReplace.coll_replace false true false [1; 2]%Z [2; 3]%Z = CollReplace.Repl true [2; 3]%Z
+  /\ CollReplace.coll_replace false false false [1; 2]%Z [2]%Z = CollReplace.Repl false [2]%Z
+  /\ CollReplace.coll_replace true false false [1; 2]%Z [5]%Z = CollReplace.NoChange.
+Proof. exact CollReplaceProofs.coll_example. Qed.
+Print Assumptions C05_coll_replace_example.
